@@ -8,39 +8,61 @@ from vlib import Suite, zlit, zlist, coqlist, blit
 
 ID = "C16"
 READY = True
-RULE = ("ops: operator x operand pairs over all type combinations of None/bool/int/str(/float, oracle only), boundary "
-        "ints (0, +-1, 2^31, 10^18), empty/equal/prefix strings; CPython's own operators are the observed side, MPF's "
-        "evaluate of 'a <op> b' is checked by the oracle.  expr: random expressions (<= 25 nodes) over parameters, "
-        "machine variables, settings, a monitored device attribute and player variables (outside a game), printed "
-        "with ast.unparse, evaluated by raw/bool/int templates with evaluate and evaluate_and_subscribe; non-trivial = "
-        "at least 3 operator nodes or a store read; distinct by case hash.  ext (oracle only): floats, tuples, "
-        "subscripts.  hist: a template subscribed on the real machine, then 1-8 changes of machine variables "
-        "(set/remove), settings, player variables and switch states; non-trivial = at least one change of a location "
-        "the template reads")
+RULE = ("ops: operator x operand pairs over all type combinations of None/bool/int/float/str/tuple (binary, unary, the six "
+        "comparisons, in / not in, and/or, subscripts), boundary ints (0, +-1, 2^31, 2^53+-1, 10^18), floats that round "
+        "(0.1, 1/3, 2^53+1, 1e22), empty/equal/prefix strings and tuples; CPython's own operators are the observed side, "
+        "MPF's evaluate of 'a <op> b' is checked by the oracle.  expr: random expressions (<= 25 nodes, incl. float "
+        "literals, tuple displays, constant / negative / computed subscripts, IfExp, in/not in) over parameters, machine "
+        "variables, settings, monitored device attributes (switch state, flipper 'enabled' = aliased attribute), "
+        "current_player.x, players[i].x, mode.m.a, game.a, inside a 2-player game or outside a game, printed with "
+        "ast.unparse, evaluated by raw/bool/int/float templates with evaluate and evaluate_and_subscribe; non-trivial = "
+        "at least 3 operator nodes or a store read; distinct by case hash.  ext (oracle only): the same plus inf / "
+        "overflowing / subnormal floats and list parameters.  hist: a template subscribed through the real "
+        "ConfigPlayer._update_subscription, then 1-8 changes: machine variables (set/remove), settings (directly or "
+        "through the backing variable), switch states, flipper enable/disable, any player's variables, game start, add "
+        "player, ball end (turn hand-over), game end (optionally with a queue handler delaying mode_game_stopping); "
+        "non-trivial = at least one change of something the template reads")
 TRUSTED_BASE = [
     "Coq 8.16.1 kernel (coqc); vm_compute for evaluating the model in the correspondence run; no native_compute",
     "axioms: none (every Print Assumptions is 'Closed under the global context')",
-    "translator harness/props/c16.py::translate (Python ast of the three dict literals -> coq/C16/gen/Tables.v), fail-closed",
-    "hand-written model coq/C16/{Syntax,Model}.v tied to the working tree by correspondence on every run: py_* against "
-    "CPython's own operators, tmpl_eval/evaluate/evaluate_and_subscribe and the subscriber loop against the real "
-    "PlaceholderManager on a booted machine",
+    "translator harness/props/c16.py::translate (Python ast of the three operator dict literals and of "
+    "BasePlaceholderManager.__init__'s _eval_methods -> coq/C16/gen/Tables.v), fail-closed",
+    "hand-written model coq/C16/{Syntax,Model}.v tied to the working tree by correspondence on every run: py_* (incl. the "
+    "binary64 rounding function rnd53 and CPython's float_divmod) against CPython's own operators, "
+    "tmpl_eval/evaluate/evaluate_and_subscribe and the subscriber loop against the real PlaceholderManager on a booted machine",
     "CPython 3.12 as the definition of 'Python's operator semantics'; ast.parse/ast.unparse (the expression tree handed "
-    "to the model is the tree MPF parses: checked by dump equality on every generated case)",
+    "to the model is the tree MPF parses: checked by dump equality on every generated case); float.as_integer_ratio",
+    "MpfFakeGameTestCase for starting games / draining balls; the game-state after every lifecycle step is compared with "
+    "the harness's own bookkeeping (harness error otherwise)",
 ]
 ASSUMPTIONS = [
-    "floats, tuples, subscripts and '%' string formatting are outside the Coq model (oracle-only suite 'ext' and the "
-    "float part of 'ops' exercise them on the implementation)",
+    "floats: finite binary64 values, zero or of magnitude in [2^-500, 2^500), as exact rationals with explicit rounding; "
+    "inf, nan, overflow, subnormals, float ** (C pow()), int ** negative int and '%' string formatting are outside the Coq "
+    "model (oracle-only: suite 'ext' and the excluded part of 'ops'/'expr', counted in evidence)",
+    "floats kept in machine / player variables by the hist generator are small dyadic values (value - prev is exact); "
+    "the model's announcement rule is the code's (truthiness of value - prev), the theorem's guard covers the rest",
     "parameters are not named like the global placeholders (machine, settings, device, mode, current_player, players, game, true, false)",
     "a setting is changed through SettingsController.set_setting_value or by writing a VALID value to its backing machine variable (two of the three settings have machine_var: different from their name); invalid raw values and removal of a backing variable are not generated",
-    "ZeroDivisionError / unsupported operators escape as AssertionError: not a value, outside the property's claim",
+    "ZeroDivisionError / IndexError / operators not in the tables (in, not in, is, <<, ...) escape as AssertionError: not a value, outside the property's claim; mode.* and game.* cannot be subscribed (ModePlaceholder / Game have no subscribe()): evaluate_and_subscribe raises, modelled and proved, judged outside the claim",
+    "a game-lifecycle step (start, add player, ball end, game end) is one atomic change of the model; evaluations the real "
+    "loop performs in the transient states inside a step are not modelled (a history in which such an evaluation kills the "
+    "loop is not fed to the model; counted); the machine variables player<N>_score written at game end, extra balls, "
+    "tilt and machine.time are not modelled; players[i] only with a constant i >= 0; slices, dict / attribute access on "
+    "parameter values and text templates ({...:d} formatting) are not covered",
 ]
 LEVEL_TEXT = ("Machine-checked proof (Coq) over a deep embedding of the template expression grammar: MPF's walk, parameterised "
-              "by the operator tables regenerated from the source on every run, equals Python's evaluation for every expression "
-              "and environment of the modelled domain (None/bool/int/str), type errors and missing variables give the default, "
-              "every location read is subscribed, the outcome can only change when a subscribed location changes, and the "
-              "re-evaluate/re-subscribe loop never holds a stale value after any history of announced changes.")
-LEVEL_NOTE = ("Trusted: Coq kernel + vm_compute; no axioms. Tables translated (T); walker hand-modelled (H) and validated "
-              "differentially against the working tree on every run; floats/tuples/subscripts validated by the oracle only.")
+              "by the operator and dispatch tables regenerated from the source on every run, equals Python's evaluation for "
+              "every expression and environment of the modelled domain (None/bool/int/float with explicit binary64 "
+              "rounding/str/tuple; subscripts, IfExp, tuple displays), type errors and missing variables give the default, "
+              "every cell read lies behind a subscribed channel (machine variables, settings, device attributes, player "
+              "variables of any player, turn hand-over, player list), the outcome can only change when a cell behind a "
+              "subscribed channel changes, and the re-evaluate/re-subscribe loop never holds a stale value after any history "
+              "of announced changes incl. game start / add player / turn hand-over / game end - without any guard for int/str "
+              "valued stores.")
+LEVEL_NOTE = ("Trusted: Coq kernel + vm_compute; no axioms. Tables translated (T); walker, placeholders and event announcements "
+              "hand-modelled (H) and validated differentially against the working tree on every run; inf/nan/float pow/'%' "
+              "formatting validated by the oracle only. Model = code with fixes/C16-*.patch (incl. "
+              "C16-player-placeholder-game-end.patch).")
 TECHNIQUE = "Coq proof over translated tables + hand-written executable model; differential correspondence (vm_compute); direct oracle against CPython"
 DESIGN_REF = "DESIGN.md section 3, C16"
 
@@ -633,8 +655,17 @@ def expect_subscribe(ref, kind, default):
     return None
 
 
+def canon_tag(t):
+    """-0.0 and 0.0 are the same value (==); the model identifies them too"""
+    if t[0] == "f" and float(t[1]) == 0:
+        return ["f", "0.0"]
+    if t[0] in ("t", "l"):
+        return [t[0], [canon_tag(x) for x in t[1]]]
+    return t
+
+
 def same_out(got, want):
-    return "v" in got and json.dumps(got["v"]) == json.dumps(want["v"])
+    return "v" in got and json.dumps(canon_tag(got["v"])) == json.dumps(canon_tag(want["v"]))
 
 
 def oracle_ops(case, out):
@@ -1712,7 +1743,7 @@ def run_hist(case):
         if trace.get("unsup") or (ref[0] == "other" and ref[1] != "crash"):
             out["dom"] = False
         return trace.get("reads", [])
-    domain_now()
+    out["reads0"] = domain_now()
     for ch in case["changes"]:
         before = state["calls"]
         apply_real_change(rig, ch)
@@ -1780,8 +1811,12 @@ def oracle_hist(case, out):
         elif changed[i]:
             suspects.append((ch, changed[i]))
         if not py_equal(st["last"], st["fresh"]):
-            rd = set(st["reads"]) | set(out["steps"][i - 1]["reads"] if i else [])
+            before_reads = set(out["steps"][i - 1]["reads"] if i else out.get("reads0", []))
+            rd = set(st["reads"]) | before_reads
             culprits = [c for c, ks in suspects if set(ks) & rd] or [c for c, ks in suspects]
+            if ch[0] == "end" and any(k.startswith("player") for k in before_reads) and \
+                    not any(c[0] == "pv" and c[3] == ["n"] for c in culprits):
+                culprits = [ch]
             if culprits and all(c[0] == "pv" and c[3] == ["n"] for c in culprits):
                 fails.append({"sig": "stale-player-var-set-to-none",
                               "what": "a player variable set to None posts no player_<name> event: a subscribed template keeps the old value"})
@@ -1834,7 +1869,11 @@ def coq_hist(case, out):
         return None
     inp = "(%s, %s, %s, %s, %s)" % (CKIND[case["kind"]], cval(case["default"]), cenv(case["env"]), cexpr(case["tree"]),
                                     coqlist(cchange(c) for c in case["changes"]))
-    exp = "(%s, %s)" % (cs[0], coqlist("(%s, %s)" % (blit(st["fired"]), c) for st, c in zip(out["steps"], cs[1:])))
+    # "fired" is compared up to and including the first game-lifecycle step; afterwards the real loop may hold the
+    # subscriptions of an evaluation made in a transient state inside that step (values are compared at every step)
+    first_lc = next((j for j, c in enumerate(case["changes"]) if c[0] in LIFECYCLE), len(case["changes"]))
+    exp = "(%s, %s)" % (cs[0], coqlist("(%s, %s)" % ("(Some %s)" % blit(st["fired"]) if j <= first_lc else "None", c)
+                                       for j, (st, c) in enumerate(zip(out["steps"], cs[1:]))))
     return "(%s, %s)" % (inp, exp)
 
 
@@ -1889,9 +1928,9 @@ SUITES = [
     Suite("ops", gen_ops, run_ops, HDR_OPS, coq_ops, oracle_ops, shrink_ops, None,
           {"quick": 5000, "thorough": 200000}, describe=describe_ops, shard=800),
     Suite("expr", gen_expr, run_expr, HDR_EXPR, coq_expr, oracle_expr, shrink_expr, nontrivial_expr,
-          {"quick": 3000, "thorough": 150000}, describe=describe_expr, shard=250),
+          {"quick": 3500, "thorough": 150000}, describe=describe_expr, shard=250),
     Suite("hist", gen_hist, run_hist, HDR_HIST, coq_hist, oracle_hist, shrink_hist, nontrivial_hist,
-          {"quick": 900, "thorough": 40000}, describe=describe_hist, shard=150),
+          {"quick": 1400, "thorough": 40000}, describe=describe_hist, shard=150),
     Suite("ext", gen_ext, run_expr, None, None, oracle_expr, shrink_expr, nontrivial_expr,
           {"quick": 800, "thorough": 50000}, describe=describe_expr),
 ]
